@@ -184,6 +184,56 @@ func runProbes(t *testing.T, c *ev.Collector) {
 			expectInt(2, "WITHIN", "e", "WHERE", "z >= 60", "COUNT", "BOUNDS", "0", "0", "2", "2"),
 		)
 	})
+	// fixed c82202c: +-Inf / NaN fields were strings inside quoted expressions
+	probe(t, c, findExprInf, func() string {
+		must(t, "FLUSHDB")
+		must(t, "SET", "k", "i", "FIELD", "f", "+Inf", "POINT", "1", "1")
+		must(t, "SET", "k", "m", "FIELD", "f", "-Inf", "POINT", "1", "1")
+		must(t, "SET", "k", "n", "FIELD", "f", "NaN", "POINT", "1", "1")
+		must(t, "SET", "k", "a", "FIELD", "f", "5000", "POINT", "1", "1")
+		must(t, "SET", "k", "b", "FIELD", "f", "5", "POINT", "1", "1")
+		return first(
+			expectIDs([]string{"a", "i"}, "SCAN", "k", "WHERE", "f", ">", "1000", "IDS"),
+			expectIDs([]string{"a", "i"}, "SCAN", "k", "WHERE", "f > 1000", "IDS"),
+			expectIDs([]string{"b", "m"}, "SCAN", "k", "WHERE", "f < 1000", "IDS"),
+			expectIDs([]string{"i"}, "SCAN", "k", "WHERE", "f == Infinity", "IDS"),
+			expectIDs([]string{"m"}, "SCAN", "k", "WHERE", "f == -Infinity", "IDS"),
+			expectIDs([]string{"a", "b", "i"}, "SCAN", "k", "WHERE", "f > -Infinity", "IDS"),
+			// JavaScript semantics for NaN: only != holds
+			expectIDs([]string{"a", "i", "m", "n"}, "SCAN", "k", "WHERE", "f != 5", "IDS"),
+			expectIDs([]string{"a", "b", "i", "m"}, "SCAN", "k", "WHERE", "f >= 5 || f < 5", "IDS"),
+			expectInt(2, "SCAN", "k", "WHERE", "f > 1000", "COUNT"),
+		)
+	})
+	// fixed 067660e: WHERE / WHEREIN look a field up under the trimmed name, as the writers store it
+	probe(t, c, findPadded, func() string {
+		must(t, "FLUSHDB")
+		must(t, "SET", "k", "a", "FIELD", " h ", "5", "POINT", "1", "2")
+		must(t, "SET", "k", "b", "FIELD", "h", "6", "POINT", "1", "2")
+		return first(
+			expectIDs([]string{"a"}, "SCAN", "k", "WHERE", " h ", "==", "5", "IDS"),
+			expectIDs([]string{"a"}, "SCAN", "k", "WHERE", " h ", "5", "5", "IDS"),
+			expectIDs([]string{"a"}, "SCAN", "k", "WHEREIN", " h ", "1", "5", "IDS"),
+			expectIDs([]string{"b"}, "SCAN", "k", "WHERE", "\th", "(5", "+inf", "IDS"),
+			expectIDs([]string{"a", "b"}, "SCAN", "k", "WHEREIN", "h \t", "2", "5", "6", "IDS"),
+			expectIDs([]string{"a"}, "SCAN", "k", "WHERE", "h", "==", "5", "IDS"),
+			expectInt(1, "SCAN", "k", "WHERE", " h ", "==", "5", "COUNT"),
+		)
+	})
+	// fixed cba05d0: a field named j.b wins over member b of a JSON field j
+	probe(t, c, findShadow, func() string {
+		must(t, "FLUSHDB")
+		must(t, "SET", "k", "both", "FIELD", "j", `{"b":1}`, "FIELD", "j.b", "7", "POINT", "1", "2")
+		must(t, "SET", "k", "doc", "FIELD", "j", `{"b":1}`, "POINT", "1", "2")
+		must(t, "SET", "k", "plain", "FIELD", "j.b", "7", "POINT", "1", "2")
+		return first(
+			expectIDs([]string{"both", "plain"}, "SCAN", "k", "WHERE", "j.b", "==", "7", "IDS"),
+			expectIDs([]string{"doc"}, "SCAN", "k", "WHERE", "j.b", "==", "1", "IDS"),
+			expectIDs([]string{"both", "plain"}, "SCAN", "k", "WHERE", "j.b", "7", "7", "IDS"),
+			expectIDs([]string{"doc"}, "SCAN", "k", "WHEREIN", "j.b", "1", "1.0", "IDS"),
+			expectInt(2, "SCAN", "k", "WHERE", "j.b", ">", "1", "COUNT"),
+		)
+	})
 	// suspected: limits when the literal prefix ends in byte 0xff
 	probe(t, c, findFF, func() string {
 		must(t, "FLUSHDB")
